@@ -110,7 +110,12 @@ fn copy_worker(work: cbc::Receiver<Operation>, config: &Arc<Config>, updates: Ar
 
             Operation::Link(from, to) => {
                 info!("Worker[{:?}]: Symlink {:?} -> {:?}", thread::current().id(), from, to);
-                let _r = symlink(&from, &to);
+                let r = symlink(&from, &to);
+                if let Err(e) = r {
+                    updates.send(StatusUpdate::Error(XcpError::CopyError(e.to_string())))?;
+                    error!("Error symlinking: {:?} -> {:?}; aborting.", from, to);
+                    return Err(e.into())
+                }
             }
 
             Operation::Special(from, to) => {
